@@ -431,6 +431,12 @@ def r7(ctx):
     ctx.floor("C18.R7", 2)
 
 
+def r8(ctx):
+    """"exactly as they would on a store that had maintained them all along": the maintained key-ordered index loses an id only
+    together with its record (the index rows of the prune primitive, = C02.R1 / C05.R7)"""
+    from . import C02
+    ctx.share("C18.R8", C02.r1, "C02.R1", keep=lambda k: "index-ids" in k, floor=1)
+
 def run(ctx):
     ctx.run_rule("C18.R1", r1)
     ctx.run_rule("C18.R2", r2)
@@ -438,3 +444,4 @@ def run(ctx):
     ctx.run_rule("C18.R5", r5)
     ctx.run_rule("C18.R6", r6)
     ctx.run_rule("C18.R7", r7)
+    ctx.run_rule("C18.R8", r8)
